@@ -295,7 +295,8 @@ def build_crosstest(ctx: Ctx, T):
     m = CN()
     r = ctx.rng
     pts = []
-    n_x = ctx.budget(5, 14)
+    n_x = ctx.budget(3, 14)
+    n_rp = ctx.budget(1, 2)          # random parameter sets per class, next to the fixed ones
 
     def xs():
         base = [0.0, 1.0, -0.5, 1.75, 0.5]
@@ -303,13 +304,13 @@ def build_crosstest(ctx: Ctx, T):
 
     def params_for(cls):
         if cls == "PowerLawStretch":
-            return [(1.0,), (0.5,), (2.0,)] + [(r.randrange(1, 48) / 8.0,) for _ in range(2)]
+            return [(1.0,), (0.5,), (2.0,)] + [(r.randrange(1, 48) / 8.0,) for _ in range(n_rp)]
         if cls in ("LogarithmicStretch", "InverseLogarithmicStretch"):
-            return [(1000.0,), (0.125,)] + [(r.choice([0.5, 3.0, 17.25, 250.0, 4096.0]),) for _ in range(2)]
+            return [(1000.0,), (0.125,)] + [(r.choice([0.5, 3.0, 17.25, 250.0, 4096.0]),) for _ in range(n_rp)]
         if cls == "InverseHyperbolicSineStretch":
-            return [(0.1,), (2.0,)] + [(r.randrange(1, 40) / 16.0,) for _ in range(2)]
+            return [(0.1,), (2.0,)] + [(r.randrange(1, 40) / 16.0,) for _ in range(n_rp)]
         if cls == "HyperbolicSineStretch":
-            return [(1.0 / 3.0,), (2.0,)] + [(r.randrange(3, 40) / 16.0,) for _ in range(2)]
+            return [(1.0 / 3.0,), (2.0,)] + [(r.randrange(3, 40) / 16.0,) for _ in range(n_rp)]
         if cls == "LinearStretch":
             return [(1.0, 0.0), (0.5, 0.25), (1.0, 0.125), (2.0, 0.0), (-0.5, 0.75)]
         raise AssertionError(cls)
@@ -759,6 +760,18 @@ def interval_expr(a, cfg, obs):
     return "(qshow_pair (%s), %s, %s, %s)" % (lim, fmap, qmap, mask)
 
 
+def cancellation_slack(dtype, vals, vmin, vmax):
+    """float32 / float16 data: the limits are Python floats, NumPy casts them to the data's dtype when it
+    subtracts (NEP 50), so `x - vmin` carries an absolute error of up to one ulp of the operands'
+    magnitude; relative to the span vmax - vmin that is eps * scale / span (catastrophic cancellation when
+    the data's spread is tiny next to its magnitude — inherent to the dtype, outside the theorems).
+    Factor 4 of margin.  float64 data and integer data (computed in float64) keep the fixed slack."""
+    if dtype not in ("float16", "float32") or not (vmax > vmin):
+        return 0.0
+    scale = max([abs(vmin), abs(vmax)] + [abs(v) for v in vals if math.isfinite(v)])
+    return 4.0 * float(np.finfo(dtype).eps) * scale / (vmax - vmin)
+
+
 def oracle_interval(a, cfg, obs):
     """property clauses that concern the interval map alone (identity stretch)"""
     if "err" in obs:
@@ -784,16 +797,22 @@ def oracle_interval(a, cfg, obs):
         if y2 < y1 - mt:
             return "not monotone: %r -> %r but %r -> %r (limits %r, %r)" % (x1, y1, x2, y2, vmin, vmax)
     if vmin < vmax:
+        et = rt + cancellation_slack(a["dtype"], vals, vmin, vmax)
         for x, y in fin:
-            if x == vmin and abs(y) > rt:
+            if x == vmin and abs(y) > et:
                 return "lower limit %r mapped to %r, not 0" % (x, y)
-            if x == vmax and abs(y - 1) > rt:
+            if x == vmax and abs(y - 1) > et:
                 return "upper limit %r mapped to %r, not 1" % (x, y)
     return None
 
 
 def classify_failure(a, cfg, msg, rerun):
-    """integer-dtype wrap-around is recognised by the same data passing in float64"""
+    """integer-dtype wrap-around is recognised by the same data passing in float64, half-precision
+    overflow inside a stretch by the same data passing in float32"""
+    if a["dtype"] == "float16":
+        b = dict(a)
+        b["dtype"] = "float32"
+        return "float16-overflow" if rerun(b, cfg) is None else None
     if a["dtype"].startswith("float"):
         return None
     b = dict(a)
@@ -868,12 +887,13 @@ def check_interval_correspondence(ctx: Ctx):
                                         "implementation %r" % (i, a["data"][i], (tag, mm, ee), y))
                         break
             rtol = 2.0 ** -46 if obs["out_dtype"] == "float64" else 2.0 ** -18
+            cs = cancellation_slack(a["dtype"], [float(x) for x in a["data"]], obs["vmin"], obs["vmax"])
             for i, ((tag, qn, qd), y) in enumerate(zip(qm, out)):
                 if tag == 1:
                     ok = y != y
                 elif tag == 0:
                     q = float(Fraction(qn, qd))
-                    ok = y == y and abs(q - y) <= rtol * max(1.0, abs(q)) + 1e-300
+                    ok = y == y and abs(q - y) <= rtol * max(1.0, abs(q)) + cs + 1e-300
                 else:
                     ok = False
                 if not ok:
@@ -945,12 +965,16 @@ def oracle_norm(a, icfg, scfg, with_data=True, opts=None):
             if with_data:
                 vmin, vmax = float(N.vmin), float(N.vmax)
                 if opts.get("refreeze"):
-                    before = (N.vmin, N.vmax, N.interval)
+                    # compared as floats: matplotlib's vmin / vmax setters turn a Python int into a float on
+                    # re-assignment, which for |limit| > 2**53 is not the same number object-wise
+                    def snap():
+                        return (float(N.vmin), float(N.vmax), type(N.interval).__name__,
+                                float(N.interval.vmin), float(N.interval.vmax))
+                    before = snap()
                     other = np.where(np.isfinite(arr), arr, 0).astype(np.float64) * 3.0 + 7.0
                     N._set_limits(other)
-                    after = (N.vmin, N.vmax, N.interval)
-                    if not (float(after[0]) == float(before[0]) and float(after[1]) == float(before[1])
-                            and after[2] == before[2]):
+                    after = snap()
+                    if after != before:
                         return ("limits-frozen", "a second _set_limits on other data changed the frozen limits "
                                                  "%r -> %r" % (before, after))
             else:
@@ -968,6 +992,9 @@ def oracle_norm(a, icfg, scfg, with_data=True, opts=None):
         odt = np.ma.getdata(out).dtype
         rt = TOL if odt == np.float64 else 16 * float(np.finfo(odt).eps) if odt.kind == "f" else TOL
         mt = MONO_TOL if odt == np.float64 else rt
+        if a["dtype"] == "float16":
+            # the subtraction of vmin is carried out in the data's half precision whatever the result dtype
+            rt = mt = max(rt, 16 * float(np.finfo(np.float16).eps))
         xs = [float(v) for v in arr.ravel().tolist()]
         fin = finite_values(a)
         if a["dtype"] == "float16":
@@ -1027,7 +1054,10 @@ def oracle_norm(a, icfg, scfg, with_data=True, opts=None):
                 if not (po[3] <= po[0] + mt and po[0] <= po[2] + mt and po[2] <= po[1] + mt
                         and po[1] <= po[4] + mt):
                     return ("monotone", "not monotone on probe %r -> %r" % (probe.tolist(), po))
-                if not (rt < po[2] < 1 - rt):
+                # (limits one float64 ulp apart — uint64 data near 2**64 — have no representable interior point)
+                # strictly inside (0, 1), with no margin: 0.375**8 = 3.9e-4 is a correct value (a margin of
+                # 16 float16 ulps flagged it: false alarm); only a collapsed (step) map is meant here
+                if vmin < float(probe[2]) < vmax and not (0.0 < po[2] < 1.0):
                     return ("endpoints", "interior point mapped to %r (normalisation is constant?)" % po[2])
                 back = np.asarray(N.inverse(np.array(po[:3])), dtype=np.float64).tolist()
                 scale = max(1.0, abs(vmin), abs(vmax))
@@ -1051,10 +1081,17 @@ def oracle_norm(a, icfg, scfg, with_data=True, opts=None):
                         if not abs(y0 - y1) <= 1e-6:
                             return ("norm-inverse", "norm(inverse(%r)) = %r" % (y0, y1))
             else:
+                # the data's own dtype computes here: cancellation slack of the interval map, carried
+                # through the stretch (its slope at the ends can be large: logarithmic index 1e5)
+                cs = min(1.0, cancellation_slack(a["dtype"], xs, vmin, vmax))
+                t0 = t1 = rt
+                if cs > 0:
+                    ends = np.asarray(N.stretch(np.array([cs, 1.0 - cs], dtype=np.float64)), dtype=np.float64)
+                    t0, t1 = rt + abs(float(ends[0])), rt + abs(1.0 - float(ends[1]))
                 for x, y, mk in zip(xs, vals, mask):
-                    if x == vmin and abs(y) > rt:
+                    if x == vmin and abs(y) > t0:
                         return ("endpoints", "lower limit %r mapped to %r, not 0" % (x, y))
-                    if x == vmax and abs(y - 1) > rt:
+                    if x == vmax and abs(y - 1) > t1:
                         return ("endpoints", "upper limit %r mapped to %r, not 1" % (x, y))
     return None
 
